@@ -35,7 +35,7 @@ Definition queue_pause_test (size limit : N) : bool := (limit <? size).
 (* _read_from_buffer: after the pop and `self._size -= size`: resume when this holds and reading is paused *)
 Definition queue_resume_test (size limit : N) : bool := (size <? limit).
 Definition DEFLATE_TRAILING : list N := [0; 0; 255; 255].
-(* _get_compressor shape checked: truthy per-message `compress` -> NEW ZLibCompressor(wbits=-compress); else the shared one, created once with wbits=-self.compress *)
+(* _get_compressor shape checked: truthy per-message `compress` -> the shared compressor is dropped (`self._compressobj = None`) and a NEW ZLibCompressor(wbits=-compress) is used; else the shared one, created on demand with wbits=-self.compress *)
 Definition override_uses_fresh_compressor : bool := true.
 (* _websocket_mask_python shape checked: data[i] ^= mask[i % 4] through four strided translate() calls over the xor table *)
 Definition mask_stride : nat := 4.
